@@ -406,7 +406,12 @@ class RF24Mesh(RF24MeshNoMaster):
                 if self.frame_buf.header.from_node != NETWORK_DEFAULT_ADDR:
                     # the reply originates here (its NETWORK_ACK must come back to this node)
                     self.frame_buf.header.from_node = self._addr
+                    reply = (self.frame_buf.header.pack(), self.frame_buf.message)
                     if not self._write(self.frame_buf.header.to_node, TX_NORMAL):
+                        # frames received while waiting for the NETWORK_ACK were unpacked
+                        # into frame_buf: the retry sends the reply again, not those
+                        self.frame_buf.header.unpack(reply[0])
+                        self.frame_buf.message = reply[1]
                         self._write(self.frame_buf.header.to_node, TX_NORMAL)
                 else:
                     self._write(self.frame_buf.header.to_node, TX_PHYSICAL)
